@@ -114,6 +114,10 @@ type c09MapSpec struct {
 	kd, vd   *val.TupleDesc
 	expected map[hash.Hash][]byte // out-of-band / addressed value -> content written
 	nAddr    int
+	// optional artifact map of the table (conflicts / constraint violations)
+	hasArtifacts bool
+	artifacts    prolly.ArtifactMap
+	artRootish   map[hash.Hash][]byte
 }
 
 func c09GenCols(t *rapid.T, label string) []c09Col {
@@ -316,18 +320,25 @@ func c09HashList(m map[hash.Hash]bool) string {
 	return strings.Join(s, ",")
 }
 
-// c09CheckNodes is oracle (i)+(ii) for one map; returns the addresses embedded in the root node
-// (values and children), which the Table chunk must report too.
-func c09CheckNodes(t *rapid.T, ctx context.Context, raw chunks.ChunkStore, ns tree.NodeStore, sp *c09MapSpec) (rootEmbedded map[hash.Hash]bool, nodes, leaves int) {
-	rootHash := sp.m.HashOf()
-	err := tree.WalkNodes(ctx, sp.m.Node(), ns, func(ctx context.Context, nd *tree.Node) error {
+// c09CheckTree is oracle (i)+(ii) for one tree of tuple nodes (row map or artifact map): kd / vd
+// say which tuples carry addresses (nil = none). Returns the addresses embedded in the root node
+// (tuple fields and children), which a Table chunk embedding that root must report too.
+func c09CheckTree(t *rapid.T, ctx context.Context, raw chunks.ChunkStore, ns tree.NodeStore, root *tree.Node, kd, vd *val.TupleDesc, desc string, planted map[hash.Hash][]byte) (rootEmbedded map[hash.Hash]bool, nodes int) {
+	rootHash := root.HashOf()
+	err := tree.WalkNodes(ctx, root, ns, func(ctx context.Context, nd *tree.Node) error {
 		nodes++
 		embedded := map[hash.Hash]bool{}
 		if nd.IsLeaf() {
-			leaves++
 			for i := 0; i < nd.Count(); i++ {
-				for _, a := range c09TupleAddrs(t, sp.vd, val.Tuple(nd.GetValue(i))) {
-					embedded[a] = true
+				if vd != nil {
+					for _, a := range c09TupleAddrs(t, vd, val.Tuple(nd.GetValue(i))) {
+						embedded[a] = true
+					}
+				}
+				if kd != nil {
+					for _, a := range c09TupleAddrs(t, kd, val.Tuple(nd.GetKey(i))) {
+						embedded[a] = true
+					}
 				}
 			}
 		} else {
@@ -346,18 +357,19 @@ func c09CheckNodes(t *rapid.T, ctx context.Context, raw chunks.ChunkStore, ns tr
 		reported := c09WalkChunk(t, c)
 		for a := range embedded {
 			if !reported[a] {
-				t.Fatalf("%s: node %s (level %d, %d entries) stores the address %s in a tuple/child slot but the reference walker does not report it for that chunk (reported: %d addresses)", sp.desc, h, nd.Level(), nd.Count(), a, len(reported))
+				t.Fatalf("%s: %s node %s (level %d, %d entries) stores the address %s in a tuple/child slot but the reference walker does not report it for that chunk (reported: %d addresses)", desc, serial.GetFileID(c.Data()), h, nd.Level(), nd.Count(), a, len(reported))
 			}
 		}
 		for a := range reported {
 			if !embedded[a] {
-				t.Fatalf("%s: the walker reports %s for node %s (level %d) but no tuple field / child slot holds that address", sp.desc, a, h, nd.Level())
+				t.Fatalf("%s: the walker reports %s for %s node %s (level %d) but no tuple field / child slot holds that address", desc, a, serial.GetFileID(c.Data()), h, nd.Level())
 			}
 		}
-		// (ii) byte scan for every planted address
-		for a := range sp.expected {
-			if bytes.Contains(c.Data(), a[:]) && !reported[a] {
-				t.Fatalf("%s: the bytes of node %s contain the planted address %s but the walker does not report it", sp.desc, h, a)
+		// (ii) byte scan for every planted address (leaves only: the boundary keys of an
+		// internal node repeat key bytes, addresses included, that the leaves below report)
+		for a := range planted {
+			if nd.IsLeaf() && bytes.Contains(c.Data(), a[:]) && !reported[a] {
+				t.Fatalf("%s: the bytes of node %s contain the planted address %s but the walker does not report it", desc, h, a)
 			}
 		}
 		return nil
@@ -365,7 +377,53 @@ func c09CheckNodes(t *rapid.T, ctx context.Context, raw chunks.ChunkStore, ns tr
 	if err != nil {
 		t.Fatalf("WalkNodes: %v", err)
 	}
-	return rootEmbedded, nodes, leaves
+	return rootEmbedded, nodes
+}
+
+// c09BuildArtifacts adds conflict / constraint-violation artifacts for drawn rows of sp; every
+// artifact's source root-ish address points at a blob nothing else references.
+func c09BuildArtifacts(t *rapid.T, ctx context.Context, ns tree.NodeStore, sp *c09MapSpec, label string, mi int) {
+	am, err := prolly.NewArtifactMapFromTuples(ctx, ns, sp.kd)
+	if err != nil {
+		t.Fatalf("NewArtifactMapFromTuples: %v", err)
+	}
+	n := rapid.IntRange(1, 6).Draw(t, label+".artifacts")
+	if sp.nRows > 100 && rapid.Bool().Draw(t, label+".manyArtifacts") {
+		n = sp.nRows // enough keys for an artifact tree with internal nodes
+	}
+	ed := am.Editor()
+	kb := val.NewTupleBuilder(sp.kd, ns)
+	sp.artRootish = map[hash.Hash][]byte{}
+	for j := 0; j < n; j++ {
+		row := j
+		if n != sp.nRows {
+			row = rapid.IntRange(0, sp.nRows-1).Draw(t, fmt.Sprintf("%s.art%d.row", label, j))
+		}
+		kb.PutInt64(0, int64(row))
+		k, err := kb.Build(ctx, ns.Pool())
+		if err != nil {
+			t.Fatalf("build key: %v", err)
+		}
+		payload := c09Payload(fmt.Sprintf("m%d.art%d", mi, j), 40+j%50)
+		rootish, err := ns.WriteBytes(ctx, payload)
+		if err != nil {
+			t.Fatalf("WriteBytes: %v", err)
+		}
+		sp.artRootish[rootish] = payload
+		at := prolly.ArtifactType(1 + rapid.IntRange(0, 4).Draw(t, fmt.Sprintf("%s.art%d.type", label, j)))
+		var vih []byte
+		if at != prolly.ArtifactTypeConflict {
+			vih = prolly.ConstraintViolationInfoHash([]byte(fmt.Sprintf("info %d", j)))
+		}
+		if err := ed.Add(ctx, k, rootish, at, []byte(fmt.Sprintf(`{"n":%d}`, j)), vih); err != nil {
+			t.Fatalf("ArtifactsEditor.Add: %v", err)
+		}
+	}
+	if am, err = ed.Flush(ctx); err != nil {
+		t.Fatalf("ArtifactsEditor.Flush: %v", err)
+	}
+	sp.artifacts, sp.hasArtifacts = am, true
+	sp.desc += fmt.Sprintf("+artifacts{n=%d height=%d}", n, am.Height())
 }
 
 func c09NodesCase(t *rapid.T, rec *vh.Recorder) {
@@ -392,6 +450,12 @@ func c09NodesCase(t *rapid.T, rec *vh.Recorder) {
 		if err != nil {
 			t.Fatalf("NewTable: %v", err)
 		}
+		if rapid.IntRange(0, 2).Draw(t, fmt.Sprintf("map%d.withArtifacts", mi)) == 0 {
+			c09BuildArtifacts(t, ctx, ns, sp, fmt.Sprintf("map%d", mi), mi)
+			if tbl, err = tbl.SetArtifacts(ctx, durable.ArtifactIndexFromProllyMap(sp.artifacts)); err != nil {
+				t.Fatalf("SetArtifacts: %v", err)
+			}
+		}
 		if rv, err = rv.PutTable(ctx, doltdb.TableName{Name: fmt.Sprintf("t%d", mi)}, tbl); err != nil {
 			t.Fatalf("PutTable: %v", err)
 		}
@@ -406,10 +470,15 @@ func c09NodesCase(t *rapid.T, rec *vh.Recorder) {
 
 	raw := storage.NewViewWithDefaultFormat()
 	rawNS := tree.NewNodeStore(raw)
-	nodes, leaves, evals := 0, 0, 0
+	nodes, evals := 0, 0
 	for mi, sp := range maps {
-		rootEmb, n, l := c09CheckNodes(t, ctx, raw, rawNS, sp)
-		nodes, leaves = nodes+n, leaves+l
+		rootEmb, n := c09CheckTree(t, ctx, raw, rawNS, sp.m.Node(), nil, sp.vd, sp.desc, sp.expected)
+		nodes += n
+		if sp.hasArtifacts {
+			akd, _ := sp.artifacts.Descriptors()
+			_, n = c09CheckTree(t, ctx, raw, rawNS, sp.artifacts.Node(), akd, nil, sp.desc+" artifact map", sp.artRootish)
+			nodes += n
+		}
 		// the Table chunk
 		th, ok, err := rv.GetTableHash(ctx, doltdb.TableName{Name: fmt.Sprintf("t%d", mi)})
 		if err != nil || !ok {
@@ -427,6 +496,9 @@ func c09NodesCase(t *rapid.T, rec *vh.Recorder) {
 			if !trep[a] {
 				t.Fatalf("%s: the Table chunk %s embeds the root node of its primary index, which stores the address %s, but the walker does not report it for the Table chunk", sp.desc, th, a)
 			}
+		}
+		if sp.hasArtifacts && !trep[sp.artifacts.HashOf()] {
+			t.Fatalf("%s: the Table chunk %s does not report the address %s of its artifact map", sp.desc, th, sp.artifacts.HashOf())
 		}
 		for a := range sp.expected {
 			if bytes.Contains(tc.Data(), a[:]) && !trep[a] {
@@ -529,6 +601,41 @@ func c09NodesCase(t *rapid.T, rec *vh.Recorder) {
 		if rows != sp.nRows {
 			t.Fatalf("%s: %d rows read back from the copy, %d written", sp.desc, rows, sp.nRows)
 		}
+		if sp.hasArtifacts {
+			ai, err := tbl2.GetArtifacts(ctx)
+			if err != nil {
+				t.Fatalf("%s: GetArtifacts on the copy: %v", sp.desc, err)
+			}
+			am2 := durable.ProllyMapFromArtifactIndex(ai)
+			am2 = prolly.NewArtifactMap(am2.Node(), dstNS, sp.kd)
+			ait, err := am2.IterAllArtifacts(ctx)
+			if err != nil {
+				t.Fatalf("%s: IterAllArtifacts on the copy: %v", sp.desc, err)
+			}
+			seen := 0
+			for {
+				art, err := ait.Next(ctx)
+				if err == io.EOF {
+					break
+				}
+				if err != nil {
+					t.Fatalf("%s: reading artifacts from the copy of the walker-reported closure: %v", sp.desc, err)
+				}
+				seen++
+				values++
+				want, ok := sp.artRootish[art.SourceRootish]
+				if !ok {
+					t.Fatalf("%s: artifact read back with source root-ish %s which was never written", sp.desc, art.SourceRootish)
+				}
+				got, err := dstNS.ReadBytes(ctx, art.SourceRootish)
+				if has, herr := dst.Has(ctx, art.SourceRootish); herr != nil || !has || err != nil || !bytes.Equal(got, want) {
+					t.Fatalf("%s: artifact's source root-ish %s is not readable from the copy of the walker-reported closure (Has=%v, err=%v/%v, %d of %d bytes)", sp.desc, art.SourceRootish, has, herr, err, len(got), len(want))
+				}
+			}
+			if cnt, _ := sp.artifacts.Count(); seen != cnt {
+				t.Fatalf("%s: %d artifacts read back from the copy, %d written", sp.desc, seen, cnt)
+			}
+		}
 	}
 
 	var descs, cl []string
@@ -537,6 +644,9 @@ func c09NodesCase(t *rapid.T, rec *vh.Recorder) {
 		descs = append(descs, sp.desc)
 		nAddr += sp.nAddr
 		maxH = max(maxH, sp.m.Height())
+		if sp.hasArtifacts {
+			cl = append(cl, fmt.Sprintf("artifact_map_height=%d", sp.artifacts.Height()))
+		}
 		for _, c := range sp.cols {
 			if c09IsAddr(c.enc) || c09IsAdaptive(c.enc) {
 				k := "col:" + c.name
